@@ -604,7 +604,7 @@ const CHATTER_BURST: usize = 3000;
 /// scenarios with two overlapping deadlines (see gen_scenario)
 const OVERLAP_CASES: u64 = 12;
 /// scenarios where a worker answers and closes its channel while the hub thread is held busy
-const SAME_TICK_CASES: u64 = 16;
+const SAME_TICK_CASES: u64 = 24;
 /// LoadState of sound / damaged / unreadable state files
 const DAMAGED_STATE_CASES: u64 = 16;
 
@@ -952,7 +952,18 @@ fn gen_scenario(seed: u64, case: u64, exhaustive_reps: u64, race_cases: u64) -> 
             .collect();
         let mut req = Req::new(verb, format!("t{case}c0r0x"), n_msgs, beh, 0);
         req.stall_ms = Some((30, 450)); // the end is scaled at run time
-        return Scenario::single(case, seed, workers, req);
+        let mut s = Scenario::single(case, seed, workers, req);
+        if case_in_rest >= 16 {
+            // a second client sends a request while the hub is held and before the worker
+            // closes: when the hub comes back it first queues that request for the worker, then
+            // finds the worker's answer and hang-up with a write pending on the dead channel
+            let other = Req::new(Verb::AddCluster, format!("t{case}c1r0x"), 1, (0..workers).map(|_| Beh::plain_ok(0)).collect(), 120);
+            // (a stop verb runs after all other clients: no concurrent request there)
+            if s.stop.is_none() {
+                s.clients.push(vec![other]);
+            }
+        }
+        return s;
     }
     case_in_rest -= SAME_TICK_CASES;
     if case_in_rest < DAMAGED_STATE_CASES {
@@ -2376,6 +2387,7 @@ fn evaluate(ctx: &Ctx, s: &Scenario, run: &CaseRun, rep: &mut Report, allow_reru
                     }
                 }
                 if !reproduced {
+                    rep.obs(&format!("time_bound_verdict_not_reproduced:{sig}"), 1);
                     rep.inconclusive("time-bound verdict (late answer accepted / worker never asked) not reproduced on a fresh hub");
                 }
             }
@@ -2492,7 +2504,7 @@ fn evaluate(ctx: &Ctx, s: &Scenario, run: &CaseRun, rep: &mut Report, allow_reru
 pub fn run(ctx: &Ctx) -> Report {
     let mut rep = Report::new(
         "fault_enumeration",
-        "one real CommandHub per case with W scripted workers (each registered with the pid of a dummy child) and a worker_timeout of 1 s. Block 1 enumerates, for each verb family {mutating, query, metrics, status, load_state, reload, hard_stop, soft_stop}, ALL assignments of the 10 worker behaviours {ok, failure, silent, close channel, duplicate ok, late ok after the deadline, k x processing then final, answer with unknown id, ok then close at once, endless processing notices without a final answer} to W=1 and W=2 workers on a single request (10+100 per family; `exhaustive` refers to this sub-space; delays, k, notice period and the message hit in multi-message verbs are seeded; soft-stop assignments with a never-ending worker are not run, see assumptions). Block 2 (12 cases) overlaps two deadlines (request A with one late-answering worker, request B of another client 0.6-0.8 s later with a mute worker) or staggers the answers to one request (one worker at 0.8 s, another after the deadline). Block 3 (16 cases, every family, W=1..2) holds the hub thread busy (another client's SaveState into a FIFO nobody reads yet) while one worker acknowledges and closes its channel, so that answer and hang-up reach the hub in one event. Block 4 (16 cases) loads state files that are sound, have valid records followed by a truncated or a garbage record, or hold nothing readable, with acknowledging or mute workers, followed by a second request on the same connection. Block 5 (race) has well-behaved workers that also flood answers with unknown ids around each dispatch, 6-8 sequential requests. Block 6 samples W in 1..4 (mostly 3..4), 1..8 concurrent clients with 1..3 requests each, random behaviours, delays and state-file damage, optionally a final HardStop or SoftStop. Oracle: exactly one final answer per request within worker_timeout + 3 s and nothing after it (every wall-clock margin is multiplied by a factor measured at start from Status round trips and sleep overshoot; a miss, an accepted late answer or a worker that was never asked is re-run on a fresh hub, first the request alone with the workers doing to it what they did, then the whole scenario, and only a reproduced one is a violation, else inconclusive); final OK only if every worker that received the request had written a successful answer for each of its messages before the client saw the final answer; no foreign tag/content in any message; hub thread alive (no panic under /repo) and answering a fresh ListWorkers. A case is non-trivial when some worker misbehaves or clients are concurrent; distinct = distinct (W, verbs, behaviour classes, delays) shapes",
+        "one real CommandHub per case with W scripted workers (each registered with the pid of a dummy child) and a worker_timeout of 1 s. Block 1 enumerates, for each verb family {mutating, query, metrics, status, load_state, reload, hard_stop, soft_stop}, ALL assignments of the 10 worker behaviours {ok, failure, silent, close channel, duplicate ok, late ok after the deadline, k x processing then final, answer with unknown id, ok then close at once, endless processing notices without a final answer} to W=1 and W=2 workers on a single request (10+100 per family; `exhaustive` refers to this sub-space; delays, k, notice period and the message hit in multi-message verbs are seeded; soft-stop assignments with a never-ending worker are not run, see assumptions). Block 2 (12 cases) overlaps two deadlines (request A with one late-answering worker, request B of another client 0.6-0.8 s later with a mute worker) or staggers the answers to one request (one worker at 0.8 s, another after the deadline). Block 3 (24 cases, every family, W=1..2; in the last 8 a second client's request reaches the held hub before the worker closes, so that a write to the dead channel is pending) holds the hub thread busy (another client's SaveState into a FIFO nobody reads yet) while one worker acknowledges and closes its channel, so that answer and hang-up reach the hub in one event. Block 4 (16 cases) loads state files that are sound, have valid records followed by a truncated or a garbage record, or hold nothing readable, with acknowledging or mute workers, followed by a second request on the same connection. Block 5 (race) has well-behaved workers that also flood answers with unknown ids around each dispatch, 6-8 sequential requests. Block 6 samples W in 1..4 (mostly 3..4), 1..8 concurrent clients with 1..3 requests each, random behaviours, delays and state-file damage, optionally a final HardStop or SoftStop. Oracle: exactly one final answer per request within worker_timeout + 3 s and nothing after it (every wall-clock margin is multiplied by a factor measured at start from Status round trips and sleep overshoot; a miss, an accepted late answer or a worker that was never asked is re-run on a fresh hub, first the request alone with the workers doing to it what they did, then the whole scenario, and only a reproduced one is a violation, else inconclusive); final OK only if every worker that received the request had written a successful answer for each of its messages before the client saw the final answer; no foreign tag/content in any message; hub thread alive (no panic under /repo) and answering a fresh ListWorkers. A case is non-trivial when some worker misbehaves or clients are concurrent; distinct = distinct (W, verbs, behaviour classes, delays) shapes",
     );
     rep.assume("a worker counts as alive at dispatch iff it read the request off its channel; requests racing with a scripted channel close are exempt");
     rep.assume("a worker whose channel closed before the final answer disconnected: the final answer must be a failure; the main process answering its pending requests in its place does not make an OK a duplicate-driven or premature one");
